@@ -329,7 +329,17 @@ func analyse(g *tGraph, rep *report.Reporter) ConfigSummary {
 		}
 		if !terminal(st) {
 			if st.q && expanded(st) {
-				report.Fatal("C18 analysis: state %s of %q is flagged quiescent by the harness but a default event changes it (canonical state or quiescence predicate is wrong); path %v", h, g.cfg, g.pathTo(h))
+				// every router holds its live neighbours' current advertisements, nothing is parked,
+				// queued or held - and yet a default event (time passing with stable links) changes the
+				// state: the fixed point is not kept
+				var evs []string
+				for _, e := range st.out {
+					if !e.dev && e.to != st.hash {
+						evs = append(evs, e.op)
+					}
+				}
+				add("C18.fix", "fixed point is not kept: with stable links and nothing outstanding a default event changes the tables",
+					fmt.Sprintf("state %s (%s) is changed by %v", st.best, st.mode, evs), h, evs[:1])
 			}
 			continue
 		}
